@@ -614,3 +614,4 @@ from . import calibreport as _CR  # noqa: E402
 unit("C11", "run_evolve")(_CR.evolve_unit)
 unit("C11", "resimulation.pairs")(_CR.pairs_unit)
 unit("C11", "extract")(_CR.extract_unit)
+STANDIN = {r"run_evolve": _CR.EVOLVE_REPLAY, r"resimulation\.pairs|extract": _CR.PAIRS_REPLAY}
